@@ -295,6 +295,232 @@ class ImplSim:
         return iso_j, iso_l
 
 
+# ----------------------------------------------------------------------------- in-process trace of real runs (run-level tie)
+
+
+def _init_str(wn, sim):
+    g = sim._internal_graph
+    lid = lambda l: int(l.name[1:])
+    multi = ";".join("%d-%d:%s" % (f, t, _c(lid(l) for l in lst)) for (f, t), lst in sim._node_pairs_with_multiple_links.items())
+    ndx = ",".join("%d-%d" % tuple(sim._map_link_to_internal_graph_data_ndx[l]) for _, l in wn.links())
+    return "init ok ok=1 P=%s X=%s N=%s D=%s M=%s NDX=%s" % (
+        _c(g.indptr), _c(g.indices), _c(sim._number_of_connections), _c(g.data), multi, ndx)
+
+
+def _flags_str(wn):
+    return "J=%s L=%s" % ("".join("1" if n._is_isolated else "0" for _, n in wn.nodes()),
+                          "".join("1" if l._is_isolated else "0" for _, l in wn.links()))
+
+
+def _iso_str(wn, sim):
+    return "%s PJ=%s PL=%s" % (_flags_str(wn), _c(int(x[1:]) for x in sim._prev_isolated_junctions),
+                               _c(int(x[1:]) for x in sim._prev_isolated_links))
+
+
+class Trace:
+    """observes, without touching /repo, every call of the isolation bookkeeping inside real `run_sim` calls on ONE network whose
+    nodes / links are named N<i> / L<j> in registry order: `_initialize_internal_graph` (with the `_prev_isolated_*` seeds run_sim
+    computed just before), every status action the change tracker is notified of, `_update_internal_graph`,
+    `_get_isolated_junctions_and_links` (+ the arguments it hands to `update_model_for_isolated_junctions_and_links`),
+    `store_results_in_network`, `changes_made('graph')`, `save_results`.  The token sequence is replayed through the Lean model
+    (`net` line: state after every call; `legs` line: Model/IsolationRun.lean `runLegs` rows)."""
+
+    def __init__(self, wntr, wn, kclass):
+        self.wntr, self.wn, self.kclass = wntr, wn, kclass
+        self.lines = []          # dict(header, raw=[tokens incl. markers], segs=[impl segment per non-marker token], rows=[...])
+        self.cur = None
+        self.problems = []
+        self.aborted = False
+        self.sim = None
+
+    # -- events
+    def _tok(self, tok, seg):
+        if self.cur is not None:
+            self.cur["raw"].append(tok)
+            if seg is not None:
+                self.cur["segs"].append(seg)
+
+    def on_init(self, sim):
+        wn = self.wn
+        self.sim = sim
+        clear = not any(n._is_isolated for _, n in wn.nodes()) and not any(l._is_isolated for _, l in wn.links())
+        seg = _init_str(wn, sim)
+        if self.cur is None or clear:
+            links = list(wn.links())
+            order = [int(nm[1:]) for nm, _ in wn.pipes()] + [int(nm[1:]) for nm, _ in wn.pumps()] + [int(nm[1:]) for nm, _ in wn.valves()]
+            src = [int(nm[1:]) for nm, _ in wn.tanks()] + [int(nm[1:]) for nm, _ in wn.reservoirs()]
+            ls = ", ".join("%d %d %d %d %d" % (int(l.start_node_name[1:]), int(l.end_node_name[1:]), self.kclass[j],
+                                               int(l._user_status), int(l._internal_status)) for j, (_, l) in enumerate(links))
+            header = "%d | %s | %s | %s" % (wn.num_nodes, ls, " ".join(map(str, order)), " ".join(map(str, src)))
+            self.cur = dict(header=header, raw=[], segs=[seg], rows=[], flagged_start=not clear)
+            self.lines.append(self.cur)
+        self._tok("R", seg + " " + _iso_str(wn, sim))
+
+    def on_act(self, tracker, subject):
+        from wntr.network.controls import ControlAction
+        from wntr.network.base import Link
+
+        obj, attr = subject.target()
+        if attr != "status" or not isinstance(obj, Link) or tracker is not getattr(self.sim, "_change_tracker", None):
+            return                # (trackers of earlier run_sim calls stay subscribed to the network's actions)
+        j = int(obj.name[1:])
+        ch = _c(int(o.name[1:]) for o, a in tracker._changed.get("graph", ()) if a == "status")
+        self._tok("%s%d=%d" % ("U" if isinstance(subject, ControlAction) else "I", j, int(subject._value)),
+                  "C=%s V=%d,%d,%d" % (ch, int(obj._user_status), int(obj._internal_status), int(obj.status)))
+
+    def on_update(self, sim):
+        ch = _c(int(o.name[1:]) for o, a in sim._change_tracker._changed["graph"] if a == "status")
+        self._tok("u", "D=%s C=%s" % (_c(sim._internal_graph.data), ch))
+
+    def on_isolated(self, sim, args):
+        q = "QJ=? QL=?"
+        if args is not None:
+            pj, pl, ij, il = args
+            q = "QJ=%s QL=%s" % (_c(int(x[1:]) for x in pj), _c(int(x[1:]) for x in pl))
+            if list(ij) != list(sim._prev_isolated_junctions) or list(il) != list(sim._prev_isolated_links):
+                q += " (args differ from the sets kept)"
+        self._tok("G", "%s %s" % (_iso_str(self.wn, sim), q))
+
+    def on_store(self):
+        wn = self.wn
+        bad = [n for n, l in wn.links() if l._is_isolated and l._flow != 0] + \
+              [n for n, j in wn.junctions() if j._is_isolated and (j._head != 0 or j._demand != 0 or j._pressure != 0 or j._leak_demand != 0)]
+        if bad:
+            self.problems.append(("flagged-not-zeroed", "store_results_in_network left non-zero values on flagged elements %s" % bad, {"elements": bad}))
+        self._tok("s", _flags_str(wn))
+
+    def on_changes_made(self, res):
+        self._tok("c1" if res else "c0", None)
+
+    def on_save(self):
+        wn = self.wn
+        seg = "S=%s %s" % (_c(int(l.status) for _, l in wn.links()), _flags_str(wn))
+        self._tok("r", seg)
+        if self.cur is not None:
+            self.cur["rows"].append(seg)
+
+    # -- patching
+    def __enter__(self):
+        import wntr.sim.core as core
+        import wntr.sim.hydraulics as hyd
+        from wntr.network.controls import ControlChangeTracker
+
+        S, T, tr = core.WNTRSimulator, ControlChangeTracker, self
+        o_init, o_upd, o_iso = S._initialize_internal_graph, S._update_internal_graph, S._get_isolated_junctions_and_links
+        o_um, o_store, o_save = hyd.update_model_for_isolated_junctions_and_links, hyd.store_results_in_network, hyd.save_results
+        o_tu, o_cm = T.update, T.changes_made
+        self._saved = [(S, "_initialize_internal_graph", o_init), (S, "_update_internal_graph", o_upd),
+                       (S, "_get_isolated_junctions_and_links", o_iso), (hyd, "update_model_for_isolated_junctions_and_links", o_um),
+                       (hyd, "store_results_in_network", o_store), (hyd, "save_results", o_save), (T, "update", o_tu),
+                       (T, "changes_made", o_cm)]
+        box = {}
+
+        def w_init(sim):
+            o_init(sim)
+            tr.on_init(sim)
+
+        def w_upd(sim):
+            o_upd(sim)
+            tr.on_update(sim)
+
+        def w_um(m, wn, updater, pj, pl, ij, il):
+            box["args"] = (list(pj), list(pl), list(ij), list(il))
+            return o_um(m, wn, updater, pj, pl, ij, il)
+
+        def w_iso(sim):
+            box["args"] = None
+            r = o_iso(sim)
+            tr.on_isolated(sim, box["args"])
+            return r
+
+        def w_store(wn, m):
+            o_store(wn, m)
+            tr.on_store()
+
+        def w_save(wn, node_res, link_res):
+            o_save(wn, node_res, link_res)
+            tr.on_save()
+
+        def w_tu(tracker, subject):
+            o_tu(tracker, subject)
+            tr.on_act(tracker, subject)
+
+        def w_cm(tracker, ref_point):
+            r = o_cm(tracker, ref_point)
+            if ref_point == "graph" and tracker is getattr(tr.sim, "_change_tracker", None):
+                tr.on_changes_made(r)
+            return r
+
+        for (o, name, _), w in zip(self._saved, [w_init, w_upd, w_iso, w_um, w_store, w_save, w_tu, w_cm]):
+            setattr(o, name, w)
+        return self
+
+    def __exit__(self, et, ev, tb):
+        for o, name, f in self._saved:
+            setattr(o, name, f)
+        if et is not None:
+            self.aborted = True
+        return False
+
+    # -- what goes to the Lean driver
+    @staticmethod
+    def parse_legs(raw):
+        """the observed calls must follow the order of the loop body: acts* u G [s acts* (c1 u | c0 [r])]"""
+        act = lambda t: t[0] in "UI"
+        legs, i, n = [], 0, len(raw)
+        while i < n:
+            if raw[i] != "R":
+                return None, "expected R at %d: %s" % (i, raw[i])
+            i += 1
+            passes = []
+            while i < n and raw[i] != "R":
+                pre = []
+                while i < n and act(raw[i]):
+                    pre.append(raw[i])
+                    i += 1
+                if raw[i:i + 2] != ["u", "G"]:
+                    return None, "expected u G at %d: %s" % (i, raw[i:i + 2])
+                i += 2
+                if i >= n or raw[i] == "R":
+                    passes.append((pre, [], 0))       # the solve failed: break
+                    break
+                if raw[i] != "s":
+                    return None, "expected s at %d: %s" % (i, raw[i])
+                i += 1
+                post = []
+                while i < n and act(raw[i]):
+                    post.append(raw[i])
+                    i += 1
+                if i >= n or raw[i] not in ("c0", "c1"):
+                    return None, "expected changes_made at %d: %s" % (i, raw[i:i + 1])
+                if raw[i] == "c1":
+                    if raw[i + 1:i + 2] != ["u"]:
+                        return None, "expected u after a change at %d" % i
+                    i += 2
+                    passes.append((pre, post, 0))
+                else:
+                    i += 1
+                    rep = 1 if (i < n and raw[i] == "r") else 0
+                    i += rep
+                    passes.append((pre, post, rep))
+            legs.append(passes)
+        return legs, None
+
+    def driver_lines(self):
+        """[(net line, impl segments, legs line or None, impl rows, grammar problem or None)]"""
+        out = []
+        for ln in self.lines:
+            toks = [t for t in ln["raw"] if t not in ("c0", "c1")]
+            net = "net %s | %s" % (ln["header"], " ".join(toks))
+            legs, err = self.parse_legs(ln["raw"])
+            ll = None
+            if legs is not None and not ln["flagged_start"]:
+                ll = "legs %s | %s" % (ln["header"], " ; ".join(
+                    " / ".join("%s > %s > %d" % (" ".join(a), " ".join(b), r) for a, b, r in leg) for leg in legs))
+            out.append((net, ln["segs"], ll, ln["rows"], None if self.aborted else err))
+        return out
+
+
 # ----------------------------------------------------------------------------- full runs (c)
 
 
@@ -524,11 +750,23 @@ def build_run_wn(wntr, sc):
     return wn
 
 
-def run_oracle(wntr, sc):
-    """returns (problem or None, stats). problem = (key, text, observed)"""
-    import numpy as np
-
+def run_oracle(wntr, sc, trace=None):
+    """returns (problem or None, stats). problem = (key, text, observed).  `trace`: a list that receives the Trace of the run"""
     wn = build_run_wn(wntr, sc)
+    if trace is None:
+        return _run_oracle(wntr, sc, wn)
+    kc = [KCLASS[(sc["lk"][j] if sc.get("lk") else ["pipe"])[0]] for j in range(len(sc["links"]))]
+    with Trace(wntr, wn, kc) as tr:
+        trace.append(tr)
+        prob, stats = _run_oracle(wntr, sc, wn)
+    if prob is not None and prob[0] == "run-raises":
+        tr.aborted = True
+    if prob is None and tr.problems:
+        prob = tr.problems[0]
+    return prob, stats
+
+
+def _run_oracle(wntr, sc, wn):
     sim = wntr.sim.WNTRSimulator(wn)
     kw = {"HW_approx": "piecewise"} if sc.get("piecewise") else {}
     try:
@@ -842,20 +1080,75 @@ class C09(Check):
                 f.write(s)
 
     # ------------------------------------------------------------------ (c)
-    def corr_runs(self, ctx, scs, failures):
+    def corr_runs(self, ctx, scs, failures, broken=None):
+        """full runs: the statement's oracle on the results; with `broken` given also the run-level tie (every call of the
+        bookkeeping observed in-process, replayed through the Lean model)"""
         wntr = vlib.import_wntr()
+        pend = []
         for sc in scs:
-            prob, stats = run_oracle(wntr, sc)
+            tl = [] if broken is not None else None
+            prob, stats = run_oracle(wntr, sc, trace=tl)
             ctx.case(("run", json.dumps(sc, sort_keys=True)), nontrivial=stats.get("iso_steps", 0) > 0)
             for k, v in stats.items():
                 ctx.count("run:" + k, v)
             if any(sc["links"].count(l) + sc["links"].count((l[1], l[0])) > 1 for l in sc["links"]):
                 ctx.count("run:with-parallel")
+            for k in sorted(set(l[0] for l in sc.get("lk", [])) - {"pipe"}):
+                ctx.count("run:kind:" + k)
+            if sc.get("pause"):
+                ctx.count("run:paused")
             if prob is not None:
                 key, text, obs = prob
                 failures.append(Failure("run-" + key, text, {"scenario": sc, "observed": obs}))
+            if tl:
+                for item in tl[0].driver_lines():
+                    pend.append((sc,) + item)
         if scs:
             ctx.sample({"kind": "run", "scenario": scs[0]})
+        if not pend:
+            return
+        lines = []
+        for _, net, _, legs, _, _ in pend:
+            lines.append(net)
+            if legs is not None:
+                lines.append(legs)
+        out = vlib.lean_run(DRIVER, "\n".join(lines) + "\n")
+        if len(out) != len(lines):
+            raise vlib.Infra("IsolationDriver returned %d lines for %d requests" % (len(out), len(lines)))
+        k = 0
+        nb = 0
+        for sc, net, segs, legs, rows, err in pend:
+            msegs = [x.strip() for x in out[k].split(" | ")]
+            k += 1
+            ctx.count("trace:lines")
+            ctx.count("trace:calls", len(segs) - 1)
+            if err is not None:
+                nb += 1
+                if nb <= 3:
+                    broken.append(Broken("correspondence", "run_sim call order vs Model/IsolationRun.lean",
+                                         "the observed calls do not follow the loop body the model is written for: %s\n%s" % (err, net)))
+            if " ok=1 " not in msegs[0] + " ":
+                broken.append(Broken("correspondence", "StructOk contract", "the CSR structure contract fails on the model's arrays: %s\n%s" % (net, msegs[0])))
+            if len(msegs) != len(segs) or any(a != b for a, b in zip(segs, msegs)):
+                d = next((i for i, (a, b) in enumerate(zip(segs, msegs)) if a != b), min(len(segs), len(msegs)))
+                toks = ["init"] + net.split("|")[-1].split()
+                nb += 1
+                if nb <= 3:
+                    broken.append(Broken("correspondence", "bookkeeping inside run_sim vs M8",
+                                         "%s\nfirst difference at call %d (%s)\nimpl  %s\nmodel %s" % (
+                                             net, d, toks[d] if d < len(toks) else "?", segs[d] if d < len(segs) else "-",
+                                             msegs[d] if d < len(msegs) else "-")))
+                    self._save_corpus("run", sc)
+            if legs is not None:
+                mrows = out[k].strip()
+                k += 1
+                ctx.count("trace:rows", len(rows))
+                if mrows != " | ".join(rows):
+                    nb += 1
+                    if nb <= 3:
+                        broken.append(Broken("correspondence", "reported rows vs runLegs",
+                                             "%s\nimpl  %s\nmodel %s" % (legs, " | ".join(rows), mrows)))
+                        self._save_corpus("run", sc)
 
     # ------------------------------------------------------------------
     def _cases(self, ctx, wide=False):
@@ -876,6 +1169,12 @@ class C09(Check):
         runs = [gen_run(rng, quick=q) for _ in range(14 if q else 120)]
         runs += [gen_swap_run(rng) for _ in range(3 if q else 20)]
         runs += [gen_pause_run(rng) for _ in range(3 if q else 20)]
+        # pumps / valves (PRV, PSV, FCV, TCV) / check-valve pipes on the backbone, zones containing them cut off and reconnected;
+        # a third of them paused while cut off and reconnected at the first step of the continued run
+        elem = []
+        for i in range(36 if q else 300):
+            elem.append(gen_elem_run(rng, want=SPECIAL_KINDS[i % len(SPECIAL_KINDS)] if i % 2 == 0 else None,
+                                     pause_mode="first" if i % 3 == 0 else None))
         # variants of the same scenarios: the piecewise Hazen-Williams rows, and a second run of the same simulator object
         extra = []
         for i, sc in enumerate(runs):
@@ -889,6 +1188,7 @@ class C09(Check):
                 # paused and continued while (possibly) something is cut off; int-valued actions as read from an INP file
                 extra.append(dict(sc, pause=1 + (i // 3) % (sc["steps"] - 1), intvals=(i % 2 == 0)))
         runs += extra
+        runs += elem
         return csr, nets, runs
 
     def correspondence(self, ctx):
@@ -911,7 +1211,7 @@ class C09(Check):
         csr, nets, runs = self._cases(ctx)
         self.corr_csr(ctx, ccsr + csr, failures, broken)
         self.corr_net(ctx, cnet + nets, failures, broken)
-        self.corr_runs(ctx, crun + runs, failures)
+        self.corr_runs(ctx, crun + runs, failures, broken)
         return failures, broken
 
     def search(self, ctx, broken):
